@@ -957,7 +957,11 @@ class Gen:
                 f["prefix_lines"] = [self.pick(["[Obsolete]", "[Test]", '[Route("x")]'])] + f.get("prefix_lines", [])
                 self.labels.add("attribute_line")
             if L == "Java" and self.chance(0.2):
-                f["suffix"] = " throws " + self.pick(["IOException", "IOException, SQLException", "java.io.IOException"])
+                f["suffix"] = " throws " + self.pick(["IOException", "IOException, SQLException", "java.io.IOException",
+                                                      "java.io.IOException, java.sql.SQLException, java.util.concurrent.TimeoutException",
+                                                      "E1, E2, E3, E4, E5, E6, E7, E8, E9", "IOException, SQLException"])
+                if f["suffix"].count(",") >= 2:
+                    self.labels.add("long_throws_clause")
                 self.labels.add("throws")
             f["prefix"] = prefix
         if L != "Python":
